@@ -185,6 +185,20 @@ def ser_set():
     cee.serShift(step=2, s=ser2)
     return (ser2.data, cee.serSum(ser2))
 show("ser-set", ser_set)
+import sys
+rec2 = cee.Rec(1, 2, 0.5)
+def rec_bump():
+    # an inout struct-as-class argument comes back next to the result: the caller's object keeps exactly the references it had
+    before = sys.getrefcount(rec2)
+    outs = [cee.recBump(rec2, 3)[0] for _ in range(5)]
+    same = cee.recBump(rec2, 0)[1] is rec2
+    return (outs, rec2.id, same, sys.getrefcount(rec2) - before)
+show("rec-bump", rec_bump)
+rec3 = cee.Rec(4, 2, 0.5)
+before3 = sys.getrefcount(rec3)
+for _ in range(5):
+    cee.recTwice(rec3)
+print("REF rec-twice id=%d delta=%d" % (rec3.id, sys.getrefcount(rec3) - before3))
 show("over-kw", lambda: (cee.over(a=7), cee.over(a=0.5), cee.tmpl(a=2)))
 show("bad-add", lambda: a.add("x"))
 show("bad-ctor", lambda: cee.Cls())
@@ -212,15 +226,19 @@ def python_scenario(args):
     # a struct that Python sees as a class (PY_struct_arg: class): constructor over the members, one of them read-only
     y["declarations"].append({"decl": "struct Rec { int id; int serial +readonly; double w; };", "options": {"PY_struct_arg": "class"}})
     y["declarations"].append({"decl": "double recWeight(const Rec *r)", "options": {"PY_struct_arg": "class"}})
+    y["declarations"].append({"decl": "int recBump(Rec *r +intent(inout), int by)", "options": {"PY_struct_arg": "class"}})
+    y["declarations"].append({"decl": "void recTwice(Rec *r +intent(inout))", "options": {"PY_struct_arg": "class"}})
     # and one with a pointer member: what Python reads is what the C array holds now (the library writes through the pointer)
     y["declarations"].append({"decl": "struct Ser { int n; int *data +dimension(n); };", "options": {"PY_struct_arg": "class"}})
     y["declarations"].append({"decl": "int serSum(const Ser *s)", "options": {"PY_struct_arg": "class"}})
     y["declarations"].append({"decl": "void serShift(const Ser *s, int step)", "options": {"PY_struct_arg": "class"}})
-    rec_hpp = ("\nstruct Rec { int id; int serial; double w; };\ndouble recWeight(const Rec *r);\nstruct Ser { int n; int *data; };\nint serSum(const Ser *s);\n"
+    rec_hpp = ("\nstruct Rec { int id; int serial; double w; };\ndouble recWeight(const Rec *r);\nint recBump(Rec *r, int by);\nvoid recTwice(Rec *r);\nstruct Ser { int n; int *data; };\nint serSum(const Ser *s);\n"
                "void serShift(const Ser *s, int step);\n")
     ser_cpp = ('\nint serSum(const Ser *s) { int t = 0; vt_txt("RECV serSum n="); vt_i(s->n); vt_txt("\\n"); for (int i = 0; i < s->n; i++) t += s->data[i]; return t; }\n'
                'void serShift(const Ser *s, int step) { vt_txt("RECV serShift n="); vt_i(s->n); vt_txt(" step="); vt_i(step); vt_txt("\\n"); for (int i = 0; i < s->n; i++) s->data[i] += step; }\n')
     rec_cpp = ('\ndouble recWeight(const Rec *r) { vt_txt("RECV recWeight id="); vt_i(r->id); vt_txt(" serial="); vt_i(r->serial); vt_txt(" w="); vt_d(r->w); vt_txt("\\n"); return r->w * 2; }\n')
+    rec_cpp += ('int recBump(Rec *r, int by) { vt_txt("RECV recBump id="); vt_i(r->id); vt_txt(" by="); vt_i(by); vt_txt("\\n"); r->id += by; return r->id * 10; }\n'
+                'void recTwice(Rec *r) { vt_txt("RECV recTwice id="); vt_i(r->id); vt_txt("\\n"); r->id *= 2; }\n')
     os.makedirs(workdir)
     r, tree = gen.gen_tree(workdir, y, keep=True)
     if r.status != "ok":
@@ -248,7 +266,7 @@ def python_scenario(args):
     exp_obs = ["OBS ids -> (5, 9)", "OBS add -> (8, 13, 4)", "OBS twice -> (42, 4)", "OBS rename -> (None, None)", "OBS names -> ('', 'bee')",
                "OBS find -> (100, 101)", "OBS ref -> (None, 'zed', 'zed', 101)", "OBS new -> (7, 8, True)", "OBS color -> (3, 4, 0)", "OBS over -> (None, None)", "OBS dflt -> (32, 34, 35, 62)",
                "OBS tmpl -> (42, 2.5)", "OBS weigh -> (7.5, 1.5)", "OBS order -> (None, None)", "OBS ns -> (2, 3)", "OBS dims -> (%r, %r, %r, %r, %r)" % (list(range(100, 109)), list(range(100, 108)), list(range(200, 208)), list(range(200, 209)), [100, 101]),
-               "OBS total -> (6, 3.5, 6.5, 0.5, 0)", "OBS scale -> ((15, 8), (10, 7), (12, 7), 6)", "OBS tally -> (106, 16, 104, 10)", "OBS filltext -> 'cap=20'", "OBS rec -> (2, 7, 1.5, 3.0, 1, 1.0)", "OBS ser -> (3, [1, 2, 3], 6, None, [11, 12, 13], 36)", "OBS ser-set -> ([3, 3, 3, 3], 12)", "OBS over-kw -> (None, None, 3)", "OBS bad-add raises TypeError/ValueError",
+               "OBS total -> (6, 3.5, 6.5, 0.5, 0)", "OBS scale -> ((15, 8), (10, 7), (12, 7), 6)", "OBS tally -> (106, 16, 104, 10)", "OBS filltext -> 'cap=20'", "OBS rec -> (2, 7, 1.5, 3.0, 1, 1.0)", "OBS ser -> (3, [1, 2, 3], 6, None, [11, 12, 13], 36)", "OBS ser-set -> ([3, 3, 3, 3], 12)", "OBS rec-bump -> ([40, 70, 100, 130, 160], 16, True, 0)", "OBS over-kw -> (None, None, 3)", "OBS bad-add raises TypeError/ValueError",
                "OBS bad-ctor raises TypeError/ValueError", "OBS bad-over raises TypeError/ValueError", "OBS bad-extra raises TypeError/ValueError",
                "OBS bad-kw raises TypeError/ValueError"]
     exp_recv = ["RECV Cls::Cls id=5", "RECV Cls::Cls id=9", "RECV Cls::add this=5 x=3", "RECV Cls::add this=9 x=4", "RECV Cls::add this=5 x=-1",
@@ -266,6 +284,8 @@ def python_scenario(args):
                 "RECV scale(int) n=5 factor=3", "RECV scale(int) n=5 factor=2", "RECV scale(int) n=4 factor=3", "RECV scale(str) name=2:[ab] a=1",
                 "RECV tally(arr) n=3 bias=100", "RECV tally(arr) n=3 bias=10", "RECV tally(arr) n=1 bias=100", "RECV tally(4) a=1", "RECV fillText cap=20", "RECV recWeight id=2 serial=7 w=" + A.rnd(D, 1.5), "RECV recWeight id=4 serial=5 w=" + A.rnd(D, 0.5),
                 "RECV serSum n=3", "RECV serShift n=3 step=10", "RECV serSum n=3", "RECV serShift n=4 step=2", "RECV serSum n=4",
+                "RECV recBump id=1 by=3", "RECV recBump id=4 by=3", "RECV recBump id=7 by=3", "RECV recBump id=10 by=3", "RECV recBump id=13 by=3", "RECV recBump id=16 by=0",
+                "RECV recTwice id=4", "RECV recTwice id=8", "RECV recTwice id=16", "RECV recTwice id=32", "RECV recTwice id=64",
                 "RECV over(int) a=7", "RECV over(double) a=" + A.rnd(D, 0.5), "RECV tmpl<int> a=2"]
     errs = []
     if rc != 0:
@@ -274,6 +294,10 @@ def python_scenario(args):
         if g != e:
             errs.append(("mismatch", "scenario " + e.split()[1], "Python scenario observed %r, expected %r" % (g, e)))
             break
+    for l in so.split("\n"):
+        if l.startswith("REF rec-twice") and l.strip() != "REF rec-twice id=128 delta=0":
+            errs.append(("refcount", "scenario rec-twice single-return", "Python scenario: 'void recTwice(Rec *r +intent(inout))' called five times with one struct-as-class object, "
+                         "results dropped: %s (expected id=128 delta=0: the caller's object keeps its references)" % l.strip()))
     got_recv = [g for g in got_recv if not g.startswith("RECV Cls::~Cls")]  # when Python releases objects is property C06's subject
     for g, e in zip(got_recv + ["(missing)"] * len(exp_recv), exp_recv):
         if g != e:
